@@ -1105,4 +1105,27 @@ theorem coordinate_system_first_item_speaks_for_all (perFrame : List Groups)
 
 example : ∀ g ∈ exLocalizer.perFrame, ∀ g' ∈ exLocalizer.perFrame, g.posPatient.isSome = g'.posPatient.isSome := by decide
 
+
+/-- **`for_images` needs ONE frame of reference**: both two-image classes refuse (ValueError) when a dataset has no FrameOfReferenceUID or
+the two differ, before anything else is read (the two tests and their order are pinned by TC10g; tie C: `for_images vs model`, `cross` stream) -/
+theorem for_images_needs_common_frame_of_reference (dsF dsT : ImageDs) (ff ft : Option Int) (tf tt : Bool)
+    (h : dsF.frameOfReference = none ∨ dsT.frameOfReference = none ∨ dsF.frameOfReference ≠ dsT.frameOfReference) :
+    pixToPixForImages dsF dsT ff ft tf tt = .error .value ∧ imgToImgForImages dsF dsT ff ft tf tt = .error .value :=
+  forImages_needs_common_frame_of_reference dsF dsT ff ft tf tt h
+
+/-- … and with a common one `for_images` IS the constructor on the spatial information of the FROM side and of the TO side, in that order
+(forwarding regenerated: `Gen.pixToPixForImages`, `Gen.imgToImgForImages`), so every two-plane theorem above (`pix2pix_eq_via_ref`,
+`pix2pix_mutually_inverse`, `coplanar_iff_signed_distance` …) applies to transformers built from two datasets -/
+theorem for_images_is_constructor (dsF dsT : ImageDs) (u : String) (hF : dsF.frameOfReference = some u) (hT : dsT.frameOfReference = some u)
+    (ff ft : Option Int) (tf tt : Bool) (f t : List Rat × List Rat × List Rat × Option Rat)
+    (h1 : getSpatialInformation dsF ff tf = .ok f) (h2 : getSpatialInformation dsT ft tt = .ok t) :
+    pixToPixForImages dsF dsT ff ft tf tt = pixToPixAffine f.1 f.2.1 (.seq f.2.2.1) t.1 t.2.1 (.seq t.2.2.1) ∧
+    imgToImgForImages dsF dsT ff ft tf tt = imgToImgAffine f.1 f.2.1 (.seq f.2.2.1) t.1 t.2.1 (.seq t.2.2.1) :=
+  forImages_eq_constructor dsF dsT u hF hT ff ft tf tt f t h1 h2
+
+example : (pixToPixForImages { exTiled with frameOfReference := some "1.2.3" } { exTiled with frameOfReference := some "1.2.3" }
+    (some 35) (some 11) false false).isOk = true ∧
+    (pixToPixForImages { exTiled with frameOfReference := some "1.2.3" } { exTiled with frameOfReference := some "1.2.4" }
+      (some 35) (some 11) false false).isOk = false := by decide +kernel
+
 end HdVerif.C10
